@@ -668,6 +668,10 @@ def diverges(b):
         return diverges(last)
     if b.get("k") == "Call" and (callee_of(b) or "").startswith(("core::panicking", "std::rt::begin_panic", "std::process::exit")):
         return True
+    if b.get("k") == "If" and b.get("else") is not None:
+        return diverges(b["then"]) and diverges(b["else"])
+    if b.get("k") == "Match" and b.get("arms") and b.get("src") in (None, "Normal"):
+        return all(diverges(a["body"]) for a in b["arms"])
     return False
 
 
@@ -735,6 +739,17 @@ class Exec(Sym):
         # resolved callee -> pseudo field: `x.setter(v)` on a local x is recorded as a store of v to x.<pseudo field>
         # (a setter without argument stores the literal given as the second element)
         self.setters = {}
+        # resolved callee -> pseudo field: `self.f(a, b)` appends ("rec", previous, a, b) to self.<pseudo field> (ordered effects)
+        self.recorders = {}
+
+    def pseudo_default(self, key):
+        """value of a recorder / setter pseudo field on a path that never touched it"""
+        if isinstance(key, tuple) and len(key) == 3 and key[0] == "fieldstore":
+            if key[2] in self.recorders.values():
+                return ("var", "@start")
+            if key[2] in [v[0] for v in self.setters.values()]:
+                return ("field", ("var", key[1]), "@" + key[2])
+        return None
 
     def havoc_loop(self, loop):
         pushed = []
@@ -812,6 +827,12 @@ class Exec(Sym):
         if k == "Loop" and self.tolerant:
             self.havoc_loop(e0)
             return ("unit",)
+        if k == "MethodCall" and (callee_of(e0) in self.setters or callee_of(e0) in self.recorders):
+            self.stmt(e0, d)        # an effectful call used as the value of a match arm / block tail
+            return ("unit",)
+        if k in ("Assign", "AssignOp"):
+            self.stmt(e0, d)
+            return ("unit",)
         return self.sym(e0, d)
 
     def field_key(self, n, d):
@@ -880,6 +901,12 @@ class Exec(Sym):
             elif lid is not None and c.endswith("String::push_str"):
                 cur = self.store.get(lid, ("var", "?"))
                 self.store[lid] = str_append(cur, ("s", self.sym(st0["args"][0], d)))
+            elif c in self.recorders:
+                r0 = strip(st0["recv"])
+                if r0.get("k") == "Path" and r0["to"].get("res") == "local":
+                    key = ("fieldstore", r0["to"]["name"], self.recorders[c])
+                    prev = self.store.get(key, ("var", "@start"))
+                    self.store[key] = ("rec", prev) + tuple(self.sym(a_, d) for a_ in st0["args"])
             elif c in self.setters:
                 fld, const = self.setters[c]
                 r0 = strip(st0["recv"])
@@ -948,8 +975,18 @@ class Exec(Sym):
                         raise Unsupported("tuple let from non-tuple match")
                     arms.append((pk_, g, body[1 + idx]))
                 self.bind(p, ("match", v[1], tuple(arms)))
+        elif k == "PTuple" and v and v[0] == "if" and len(v) == 4:
+            for idx, p in enumerate(pat["pats"]):
+                parts = []
+                for br in (v[2], v[3]):
+                    if not (br and br[0] == "tup" and len(br) - 1 == len(pat["pats"])):
+                        raise Unsupported("tuple let from non-tuple if")
+                    parts.append(br[1 + idx])
+                self.bind(p, ("if", v[1], parts[0], parts[1]))
         elif k == "PWild":
             pass
+        elif k == "PRef":
+            self.bind(pat["pat"], v)
         else:
             raise Unsupported("pattern " + k)
 
@@ -964,6 +1001,10 @@ class Exec(Sym):
         merged = {}
         for lid in set(st_t) | set(st_e):
             a, b = st_t.get(lid, base.get(lid)), st_e.get(lid, base.get(lid))
+            if a is None:
+                a = self.pseudo_default(lid)
+            if b is None:
+                b = self.pseudo_default(lid)
             if a is None or b is None:
                 continue
             merged[lid] = a if a == b else ("if", c, a, b)
@@ -987,6 +1028,7 @@ class Exec(Sym):
             ids |= set(o[3])
         for lid in ids:
             vals = [o[3].get(lid, base.get(lid)) for o in outs]
+            vals = [x if x is not None else self.pseudo_default(lid) for x in vals]
             if any(x is None for x in vals):
                 continue
             if all(x == vals[0] for x in vals):
@@ -1224,7 +1266,7 @@ def fold(t, assume, discr=None, helpers=None, evalcalls=None):
             return ("if", c, f(t[2]), f(t[3]))
         if h == "match":
             sc = f(t[1])
-            if sc[0] in ("variant", "lit", "struct", "ctor"):
+            if sc[0] in ("variant", "lit", "struct", "ctor", "pos"):
                 key = sc[1] if sc[0] != "struct" else sc[1]
                 arms_ = list(t[2])
                 for i_, (pk_, g, body) in enumerate(arms_):
@@ -1460,6 +1502,8 @@ def _pat_matches(pk_, sc):
             return pk_[1] == sc[1]
         if pk_[0] == "lit" and sc[0] == "lit":
             return pk_[1] == sc[1]
+        if pk_[0] == "pos" and sc[0] == "pos":
+            return tuple(pk_) == tuple(sc)
         if pk_[0] == "range" and sc[0] == "lit":
             lo, hi, end = pk_[1], pk_[2], pk_[3]
             try:
@@ -1524,6 +1568,30 @@ def guards_term(guards, rest=("lit", True), skip=None):
         elif x[0] == "arm" and isinstance(x[1], tuple) and not (x[1][0] == "call" and str(x[1][1]).endswith(("IntoIterator::into_iter", "Iterator::next"))):
             term = ("match", x[1], ((x[2], None, term), ("_", None, ("lit", False))))
     return term
+
+
+def eval_returns(body, sym, assume, discr=None, helpers=None, evalcalls=None, tail=True):
+    """Which `return` (or the tail expression) a function leaves through under a case assumption, and with what value:
+    every return leaf gets the term "all my lexical guards hold" (guards_term), folded under `assume`.
+    Returns (value, None) when exactly one leaf's condition folds to true and all others to false,
+    else (None, reason)."""
+    leaves = [(l, w) for n, l, w in return_leaves(body) if l is not None]
+    if tail:
+        te = strip(body).get("expr") if strip(body).get("k") == "Block" else None
+        if te is not None:
+            leaves += value_leaves(te)
+    fired = []
+    for l, w in leaves:
+        g = guards_of(l, body, sym) or []
+        c = fold(guards_term(g), assume, discr, helpers, evalcalls)
+        if c == ("lit", True):
+            fired.append((l, w))
+        elif c != ("lit", False):
+            return None, "undecided condition at line %s: %s" % (line(l), fmt(c, 120))
+    if len(fired) != 1:
+        return None, "%d return paths taken" % len(fired)
+    l, w = fired[0]
+    return fold(wrap_value(sym(l), w), assume, discr, helpers, evalcalls), None
 
 
 def lift_ifs(t, limit=64):
